@@ -12,7 +12,7 @@ pub enum AfterHead {
 
 /// Write the whole head with an ample buffer; returns the head bytes and the flow (still in SendRequest).
 pub fn write_head_ample(f: &mut Flow<(), SendRequest>) -> Result<Vec<u8>, String> {
-    let mut out = vec![0u8; 1 << 16];
+    let mut out = vec![0u8; 1 << 18];
     let mut head = Vec::new();
     for _ in 0..4 {
         if f.can_proceed() {
